@@ -23,6 +23,7 @@ THEOREMS = [
     "Gwcs.Tab.groups_pairwise_disjoint",
     "Gwcs.Tab.groups_cover",
     "Gwcs.Tab.input_set_in_one_group",
+    "Gwcs.Tab.groups_connected",
     "Gwcs.Tab.tab_node_exact",
     "Gwcs.Tab.tab_spans_box",
     "Gwcs.Tab.tab_between_nodes",
